@@ -49,6 +49,8 @@ type Oblig struct {
 	NoReach bool // vacuity probe: expected to be refuted
 	File    string
 	preSolved bool
+	RawQuery string // complete SMT query (assembly obligations)
+	InstTerms []Term // terms at which in-scope universally quantified facts are instantiated
 	Cases    int64
 	Replayed bool
 }
@@ -867,12 +869,21 @@ func (fc *FnCtx) checkInvariants(li *LoopInfo, env *Env, kind string, guard Term
 	}
 	if li.lc != nil {
 		for _, inv := range li.lc.Invariants {
-			t, err := fc.specBool(env, inv.Text)
+			t, sks, err := fc.specBoolGoal(env, inv.Text)
 			if err != nil {
 				fc.unbound = append(fc.unbound, fmt.Sprintf("loop %d invariant %q: %v", li.ord, inv.Text, err))
 				continue
 			}
-			fc.obligeAt(blk, kind, fmt.Sprintf("loop%d:%s", li.ord, inv.Text), token.NoPos, Implies(guard, t))
+			o := fc.obligeAt(blk, kind, fmt.Sprintf("loop%d:%s", li.ord, inv.Text), token.NoPos, Implies(guard, t))
+			fc.addInsts(o, env, sks)
+			if len(sks) > 0 {
+				// downstream code may assume the quantified form, not the skolemised one
+				fc.dropLastAssertFact()
+				if qt, qerr := fc.specBool(env, inv.Text); qerr == nil {
+					fc.seq++
+					fc.facts = append(fc.facts, Fact{blk: blk.Index, seq: fc.seq, t: Implies(guard, qt), isAssert: true})
+				}
+			}
 		}
 	}
 	// automatic counter invariants
@@ -1288,4 +1299,35 @@ func (fc *FnCtx) definedOutside(v ssa.Value, li *LoopInfo) bool {
 		return !li.body[x.Block().Index]
 	}
 	return false
+}
+
+// dropLastAssertFact removes the fact that oblige() just recorded for its goal.
+func (fc *FnCtx) dropLastAssertFact() {
+	if n := len(fc.facts); n > 0 && fc.facts[n-1].isAssert {
+		fc.facts = fc.facts[:n-1]
+	}
+}
+
+// addInsts records the terms at which quantified hypotheses are instantiated for o.
+func (fc *FnCtx) addInsts(o *Oblig, env *Env, sks []skolem) {
+	if o == nil || len(sks) == 0 {
+		return
+	}
+	for _, sk := range sks {
+		o.InstTerms = append(o.InstTerms, sk.t)
+		if fc.c == nil {
+			continue
+		}
+		for _, it := range fc.c.Insts {
+			n := env.sub()
+			n.binds[sk.name] = binding{Leaf(sk.t), specIntType}
+			sv, err := fc.specExpr(n, it)
+			if err != nil {
+				continue // the expression may mention names not visible at this point
+			}
+			if t, ok := fc.toIntTerm(sv); ok {
+				o.InstTerms = append(o.InstTerms, t)
+			}
+		}
+	}
 }
